@@ -1,9 +1,9 @@
-SPECIFICATION Spec
+SPECIFICATION XSpec
 CONSTANTS
- Fam = "devOrder"
+ Fam = "R"
  Cases <- FamCases
  DevMono = FALSE
- DevNoOrder = TRUE
+ DevNoOrder = FALSE
  DevNoLinktype = FALSE
  DevFirstWins = FALSE
  DevAmbig = FALSE
@@ -20,5 +20,5 @@ CONSTANTS
  DevGateBuildOnly = FALSE
  DevMissingCache = FALSE
  DevDegree = FALSE
-INVARIANT FinalIsExpected
+INVARIANT Export
 CHECK_DEADLOCK FALSE
